@@ -506,7 +506,10 @@ def tensorfn_cases(draw):
     Ne, nPg, d = draw(fe_dims())
     fn = draw(st.sampled_from(sorted(TFN) + ["Det", "Inv", "Inv"]))  # closed forms for dim 1, 2, 3 + numpy
     rmax = TFN[fn][3]
-    rmin = 1 if fn == "Normalize" else 0  # Normalize of a scalar field: no documented per-point meaning
+    # Normalize of a scalar field: no documented per-point meaning.  Norm along axes that are not tensor axes of the operand (a
+    # scalar field with axis=-1, a vector field with axis=(-2, -1)) is a reduction over the element / Gauss-point axes: numpy's
+    # meaning of the axis, decided in `reduce` (values of plain numpy, plain result), not a per-point function that must raise
+    rmin = {"Normalize": 1, "Norm_vec": 1, "Norm_fro": 2}.get(fn, 0)
     rank = draw(st.sampled_from([r for r in [2, 2, 2, 2, 1, 1, 0, 3, 4] if rmin <= r <= rmax]))
     t = tshape(draw, rank, d, p_other=8)
     if rank >= 2 and draw(st.integers(0, 5)) > 0:
